@@ -1,5 +1,5 @@
 (* C04: the codec wrapper (mashumaro/codecs/_builder.py): instructions emitted by add_decode_method /
-   add_encode_method (skeleton translated from /repo by tools/kernels/k16_codec_wrapper.py) and their meaning. *)
+   add_encode_method (skeleton translated from /repo by tools/kernels/k40_codec_wrapper.py) and their meaning. *)
 From Coq Require Import List Bool.
 Import ListNotations.
 
